@@ -4,6 +4,26 @@ HASH_TB = ["Hasher.Sound (collision freedom + MSB domain separation) for Blake3 
            "hand-written Lean mirrors of core/src/proof/*.rs and core/src/update.rs, tied by the differential run",
            "harness-side reference trie / truth oracle (harness/src/util.rs), itself cross-checked against the Lean nodeAt"]
 
+
+API_TB = ["Lean model of the public API (lean/NomtModel/Api/Exec.lean) is hand-written; tied to nomt/src/lib.rs by the history correspondence run",
+          "Blake3 (single chunk) implemented in Lean for the driver, validated by every root comparison",
+          "harness oracle: BTreeMap per committed state / overlay, reference trie, real proof verifier",
+          "value hashing (ValueHasher) treated as an external injective function"]
+API_ASSUME = ["single-threaded histories (schedules are C13/C15)", "tmpfs directory under /dev/shm"]
+DB_RULE = ("cases = generated histories over {session commit (blocking / non-blocking), overlay create / commit / drop, wrong ancestor chains, stale pairs, "
+           "deferred non-blocking commit, rollback(n), reopen with another configuration, read-all}; random configuration per history (workers 1..64, cache sizes 1..256 MiB, "
+           "buckets, warm-up, prepopulation, upper levels); every step emits a protocol line for the Lean api model. distinct & non-trivial = distinct histories "
+           "(hash of all protocol lines) with >= 2 successful commits and >= 1 special event (overlay, rejected / deferred commit, rollback, reopen, overflow value).")
+
+
+def DB(focus, q, t, nops=14, big=False, scale=1, shards_q=8):
+    args = ["--focus", focus, "--nops", str(nops)] + (["--big"] if big else []) + (["--scale", str(scale)] if scale > 1 else [])
+    return {"cmd": "db", "mode": "api", "args": args, "cases": {"quick": q, "thorough": t}, "shards": {"quick": min(shards_q, q), "thorough": 16}}
+
+
+def DB_SCN(names):
+    return [{"cmd": "db-scenario", "mode": "api", "args": ["--name", n], "cases": {"quick": 1, "thorough": 1}, "corpus": True} for n in names]
+
 PROPS = {
     "C08": {
         "runs": [
@@ -20,5 +40,42 @@ PROPS = {
         "rule": "same adversarial stream as C08, every call under catch_unwind; the model must predict ok / which error / panic for every line. non-trivial = mutated or malformed object.",
         "trusted_base": HASH_TB,
         "assumptions": [],
+    },
+    # ---------------- API-level properties: history engine (harness/src/db.rs) vs Lean `api` model ----------------
+    "C01": {
+        "runs": DB_SCN(["empty-store-delete-only", "overwrite-huge-value-with-rollback"]) + [
+            DB("kv", 160, 1600, nops=16, big=True),
+            DB("kv", 6, 60, nops=20, big=True, scale=100, shards_q=6),
+            DB("general", 80, 800, nops=14),
+        ],
+        "rule": DB_RULE + " C01 focus: commits dominate; value lengths straddle 1332 (in-leaf limit), 4092 (one overflow page), 15*4092 and 16*4092 (in-cell pointer limit) and 64 KiB+; scale=100 histories hold thousands of keys so leaves and branches split and merge.",
+        "trusted_base": API_TB, "assumptions": API_ASSUME,
+    },
+    "C02": {
+        "runs": [DB("kv", 120, 1200, nops=14), DB("kv", 6, 60, nops=16, scale=100, shards_q=6), DB("overlay", 60, 600, nops=14),
+                 {"cmd": "core-pp", "mode": "core", "cases": {"quick": 300, "thorough": 6000}, "shards": {"quick": 4, "thorough": 16}}],
+        "rule": DB_RULE + " C02: every root reported by the real code (session base, finished session, overlay, Nomt::root, after reopen/rollback) is compared with the Lean specification function nodeAt executed on the model's key-value list (Blake3 implemented in Lean) and with the harness reference trie.",
+        "trusted_base": API_TB, "assumptions": API_ASSUME,
+    },
+    "C05": {
+        "runs": [DB("kv", 120, 1200, nops=14), DB("overlay", 80, 800, nops=14), DB("reopen", 60, 600, nops=14), DB("kv", 4, 40, nops=14, scale=100, shards_q=4)],
+        "rule": DB_RULE + " C05: Session::prove for present keys, absent keys diverging from a present key at interesting depths (page boundaries 6k-1..6k+1, just below the terminal, 246..255) and random keys, on plain / overlay sessions, cold caches after reopen; the proof object must equal the Lean proveSpec (terminal + every sibling) and verify + confirm the session's view with the real verifier.",
+        "trusted_base": API_TB, "assumptions": API_ASSUME,
+    },
+    "C09": {
+        "runs": DB_SCN(["stale-nonblocking-then-rollback", "reopen-resurrects-pruned-delta", "rollback-all-then-reopen", "overwrite-huge-value-with-rollback"]) + [
+            DB("rollback", 200, 2000, nops=18), DB("general", 80, 800, nops=16, big=True)],
+        "rule": DB_RULE + " C09 focus: max_rollback_log_len in {1,2,3,5}; rollback(n) with n in {0,1,2,len,len+1}; rollbacks after reopen, after stale commits, over overlay commits and large values; the oracle keeps the previous committed maps.",
+        "trusted_base": API_TB, "assumptions": API_ASSUME + ["segment roll-over of the rollback log needs the segment-size hook (not yet installed): covered only through the 64 MiB default, i.e. not reached by quick runs"],
+    },
+    "C11": {
+        "runs": DB_SCN(["rejected-overlay-marks-committed"]) + [DB("overlay", 200, 2000, nops=18), DB("general", 60, 600, nops=16)],
+        "rule": DB_RULE + " C11 focus: overlay trees (chains, sibling forks, dropped and committed ancestors), sessions on every live fork, wrong / incomplete / reordered ancestor lists, in-order and out-of-order overlay commits.",
+        "trusted_base": API_TB, "assumptions": API_ASSUME,
+    },
+    "C12": {
+        "runs": DB_SCN(["stale-nonblocking-then-rollback", "rejected-overlay-marks-committed"]) + [DB("reject", 200, 2000, nops=16), DB("general", 60, 600, nops=16)],
+        "rule": DB_RULE + " C12 focus: pairs of changesets on one base committed in both orders and flavours (blocking / non-blocking, session / overlay), rollback in between, non-blocking commits while a session is alive; after every rejected or deferred attempt root, seqn, values and the result of later rollbacks are compared.",
+        "trusted_base": API_TB, "assumptions": API_ASSUME,
     },
 }
